@@ -9,6 +9,7 @@ CONSTANTS
   MaxFaults = 1
   MaxRestarts = 1
   MaxProbes = 1
+  MaxHolds = 1
   MaxNoops = 1
   WithSettle = FALSE
   PauseAtomic = FALSE
@@ -17,4 +18,5 @@ CONSTANTS
   PollerExits = FALSE
   SharedKept = FALSE
   JoinedStopped = FALSE
+  LateRegisterChecked = FALSE
   BarrierExits = TRUE
